@@ -52,6 +52,9 @@ type c10Txn struct {
 	Bookings []gen.Booking
 	Acc      gen.Accrual
 	Iv       cal.Interval
+	// accounts of which a deeper account is registered first, so that the account itself
+	// comes into being as an implicit parent
+	ChildFirst []string
 }
 
 type c10Posting struct {
@@ -193,6 +196,11 @@ func c10Make(r *rand.Rand, group string, parserOnly bool) c10Txn {
 		acc = []string{bk.Credit, bk.Debit}[r.Intn(2)]
 	}
 	t.Acc = gen.Accrual{Interval: cal.IntervalNames[t.Iv], Start: t0, End: t1, Account: acc}
+	for _, a := range t.accounts() {
+		if r.Intn(4) == 0 {
+			t.ChildFirst = append(t.ChildFirst, a)
+		}
+	}
 	return t
 }
 
@@ -623,6 +631,9 @@ func (k *c10) runCLI(c *core.Ctx, i int) {
 		for _, a := range t.accounts() {
 			if !opened[a] {
 				opened[a] = true
+				if indexOfStr(t.ChildFirst, a) >= 0 {
+					fmt.Fprintf(&b, "1900-01-01 open %s:Unterkonto\n", a)
+				}
 				fmt.Fprintf(&b, "1900-01-01 open %s\n", a)
 			}
 		}
